@@ -79,12 +79,21 @@ def r06_2(ctx):
 
 @rule('R06.3', ['C06'], floor=90, clause='bit provenance: every buffer bit a getter returns at value position j is the bit into which the setter stores value bit j, and every bit a getter depends on is written by the setter')
 def r06_3(ctx):
+    _bit_provenance(ctx, lambda adt: True, 90)
+
+
+@rule('R20.4', ['C20'], floor=20, clause='bit provenance of the 6LoWPAN and IEEE 802.15.4 header fields: the bits a getter returns are the bits its setter stores, in both directions (a fragment size, tag or offset read with a narrower mask than it was written with is a different datagram)')
+def r20_4(ctx):
+    _bit_provenance(ctx, lambda adt: adt.startswith('wire::sixlowpan::') or adt.startswith('wire::ieee802154::'), 20)
+
+
+def _bit_provenance(ctx, flt, floor):
     F = ctx.F
     views = wire_views(F)
     decided = 0
     und = collections.Counter()
     for adt in sorted(views):
-        if not in_scope(F, adt):
+        if not in_scope(F, adt) or not flt(adt):
             continue
         short = adt[len('wire::'):]
         for name, g, s in _pairs(F, adt):
@@ -116,12 +125,25 @@ def r06_3(ctx):
             if bad is None and not fp <= mod:
                 miss = sorted(fp - mod)
                 bad = f"the getter depends on byte/bit {miss[:4]} which the setter never writes"
+            if bad is None and not constant_setter and all(isinstance(x, tuple) and x[0] == 'b' or x in (0, 1) for x in gb):
+                # converse: a value bit the setter stores is the bit the getter returns at that position (a getter mask
+                # narrower than the setter's loses the high bits of the field)
+                for byte, bits in sorted(st.items()):
+                    for i, x in enumerate(bits):
+                        if isinstance(x, tuple) and x[0] == 'a' and x[2] < len(gb) + 8:
+                            j = x[2]
+                            got = gb[j] if j < len(gb) else 0
+                            if got != ('b', byte, i):
+                                bad = f"the setter stores value bit {j} into byte {byte} bit {i}, but the getter does not return that bit at position {j} (it returns {got})"
+                                break
+                    if bad:
+                        break
             if bad:
                 ctx.bad(f"{short}|{name}|bit-provenance", f"{short}::{name}() / set_{name}(): {bad}", body=g)
             else:
                 ctx.ok((short, name), sample=dict(view=short, field=name, bits=sorted(fp)[:6]))
     ctx.note(f"undecided pairs (non-integer returns, bulk stores, symbolic offsets): {dict(und.most_common(8))}")
-    ctx.need(decided >= 90, f"getter/setter pairs decided at bit level (found {decided})")
+    ctx.need(decided >= floor, f"getter/setter pairs decided at bit level (found {decided})")
 
 
 # ------------------------------------------------------------------------------------------------
